@@ -222,9 +222,38 @@ def strategy(thorough):
     return st.integers(0, 9).flatmap(lambda i: heavy if i < 2 else (helpers if i == 2 else general))
 
 
+def directed_cases():
+    """
+    Enumerated family: one small program (root f0 -> memento f1 -> plain helper f2 -> variable G0; f0 -> f2) under unusual
+    but legal names - a very long name for the memoized callee or the helper (qualified names of 160-200 characters),
+    builtin names for helper and variable - times one edit (callee literal, helper literal, variable) times the delivery.
+    Generated search draws such names too, with some probability per run; this family does not depend on the seed.
+    """
+    lit = lambda v: {"e": "lit", "v": v}  # noqa: E731
+    call = lambda f: {"e": "call", "f": f}  # noqa: E731
+    add = lambda a, b: {"e": "add", "a": a, "b": b}  # noqa: E731
+
+    def fn(name, memento, body):
+        return {"k": "fn", "mod": "a", "name": name, "memento": memento, "version": None, "cluster": None, "pdef": None, "kwdef": None, "fdef": None,
+                "base": lit(1), "body": body}
+    base = {"pkg": "vpk", "modules": ["a"], "defs": [
+        {"k": "var", "mod": "a", "name": "G0", "vtype": "int", "value": 3},
+        fn("f2", False, add({"e": "x"}, {"e": "glob", "n": "G0"})), fn("f1", True, add(call("f2"), lit(5))),
+        fn("f0", True, add(call("f1"), call("f2")))]}
+    for ren in ({}, {"f1": "f1_" + "q" * 150}, {"f1": "f1_" + "q" * 190}, {"f2": "f2_" + "q" * 150}, {"f2": "format", "G0": "filter"},
+                {"f1": "input", "G0": "hash"}):
+        p = progs.rename_defs(base, ren) if ren else base
+        for kind, tgt in (("lit", "f1"), ("lit", "f2"), ("var", "G0")):
+            for dl in ("restart", "inproc"):
+                e = {"kind": kind, "site": 0, "delta": 1, "alt": False, "idx": 0, "target": ren.get(tgt, tgt)}
+                yield {"program": p, "history": [{"edit": e, "delivery": dl}], "pres": "direct", "args": [1, 2], "src": "directed-names"}
+
+
 def run_shard(ctx):
     stats = core.Stats()
     thorough = ctx.tier == "thorough"
+    core.enum_search(list(directed_cases()), lambda c: execute(c, ctx.scratch), stats, findings=ctx.findings, shard=ctx.shard, nshards=ctx.nshards,
+                     deadline_s=max((ctx.deadline - time.time()) * 0.3, 5) if ctx.deadline else None)
     core.hyp_search(strategy(thorough), lambda c: execute(c, ctx.scratch), stats, max_examples=1500 if thorough else 70,
                     seed=core.hash64(ctx.seed, ID, ctx.shard), findings=ctx.findings, shrink=True,
                     deadline_s=(ctx.deadline - time.time()) if ctx.deadline else None)
